@@ -4,6 +4,16 @@ from conf.common import *  # noqa
 # every package found by `find /repo -type d -name fft` (harness/gen_inst_fft.py → inst.FFTs()); no fp has one
 FFTS = [c + "/fr" for c in PAIRING] + ["goldilocks", "koalabear", "babybear"]
 
+# CPU-path configurations (the property quantifies over configurations): the reference-oracle jobs dft + sched are re-run
+# for the fields that have configuration-specific FFT code (AVX-512 kernels of koalabear/babybear, their generic fall-backs,
+# goldilocks) and one 4-word curve field, under each non-default amd64 configuration (same mechanism as conf/c09.py)
+VARIANTS = [
+    dict(name="purego", tags="purego"),
+    dict(name="noadx", env={"GODEBUG": "cpu.adx=off"}),
+    dict(name="noavx512", env={"GODEBUG": "cpu.avx512=off"}),
+]
+VARIANT_FFTS = ["koalabear", "babybear", "goldilocks", "bn254/fr"]
+
 # generous: a deadline only makes a run inconclusive, and the host is shared with other checks
 T = (1200, 7200)
 
@@ -11,7 +21,8 @@ PROP = dict(
     rule=("a transform case (field, direction, n, decimation, coset, precompute, shift, nbTasks, input vector) is "
           "non-trivial when n >= 32 and (coset on, or precompute off, or the effective nbTasks is not in {1,16}, or the "
           "recursion reaches an unrolled 32/256-point kernel at a stage >= twiddlesStartStage); a Domain (de)serialisation "
-          "case is non-trivial when the reader is chunked (anything but one whole-buffer reader); Generator(m) cases "
+          "case is non-trivial when the reader is chunked (anything but one whole-buffer reader) or the receiver of ReadFrom "
+          "is not a zero-value Domain; Generator(m) cases "
           "are non-trivial for the order checks and for m not a power of two; BitReverse for n >= 4; "
           "distinct = distinct (field, configuration, input) hashes"),
     assumptions=[
@@ -23,11 +34,15 @@ PROP = dict(
         "with the reference bit reversal, not with fft.BitReverse",
         "schedules: only those the Go scheduler yields for GOMAXPROCS in {1,2,3,8,16}, nbTasks in 1..512 and (thorough) -race",
         "sizes above 2^16 (quick) / 2^20 (thorough) are not executed; BitReverse additionally at 2^21 (2^22 thorough)",
-        "amd64 host with AVX-512 (koalabear/babybear kernels); purego / no-AVX-512 variants are decided by C09",
+        "amd64 host with ADX and AVX-512; the dft and sched jobs are repeated for koalabear, babybear, goldilocks and bn254/fr under "
+        "GODEBUG=cpu.avx512=off, GODEBUG=cpu.adx=off and -tags purego (the other fields' variants are decided by C09); arm64 not executed",
     ],
     mandatory_all=["dec=DIT", "dec=DIF", "coset=on", "coset=off", "precompute=off", "precompute=on", "shift=custom",
                    "nbTasks=3", "nbTasks=17", "nbTasks=512", "nbTasks=default", "kernel=32", "kernel=256", "dir=inv",
                    "reader=onebyte", "reader=half", "reader=chunks", "reader=dataerr", "GOMAXPROCS=3",
+                   "readfrom_into:zero", "readfrom_into:other_size", "readfrom_into:same_size_other_shift",
+                   "readfrom_into:same_size_other_shift_used", "readfrom_into:same_size_noprecompute", "readfrom_into:after_readfrom",
+                   "variant=purego", "variant=noadx", "variant=noavx512", "variant=default",
                    "generator:error_beyond_two_adicity", "generator:order_ok_at_two_adicity", "check=sampled", "check=full"],
     jobs=[
         dict(name="matrix", pkg="c10", run="^TestC10_Matrix$", shards=FFTS, rapid=False, weight=2, timeout=T),
@@ -41,7 +56,15 @@ PROP = dict(
         dict(name="sched", pkg="c10", run="^TestC10_Sched$", shards=FFTS, rapid=False, weight=5, timeout=T),
         dict(name="race", pkg="c10", run="^TestC10_Sched$", shards=FFTS, rapid=False, race=True, tiers=("thorough",), weight=8,
              timeout=T),
-        dict(name="regress", pkg="c10", run="^TestC10_(Regress_F6|RefSelf)$", rapid=False),
+        dict(name="regress", pkg="c10", run="^TestC10_(Regress_F6|Regress_F6b|RefSelf)$", rapid=False),
+    ] + [
+        dict(name="dft-" + v["name"], pkg="c10", run="^TestC10_DFT$", shards=VARIANT_FFTS, tags=v.get("tags", ""),
+             env=dict(v.get("env", {}), VERIF_C10_VARIANT=v["name"]), checks=(600, 6000), weight=2, timeout=T)
+        for v in VARIANTS
+    ] + [
+        dict(name="sched-" + v["name"], pkg="c10", run="^TestC10_Sched$", shards=VARIANT_FFTS, tags=v.get("tags", ""),
+             env=dict(v.get("env", {}), VERIF_C10_VARIANT=v["name"], VERIF_C10_SCHED="lite"), rapid=False, weight=2, timeout=T)
+        for v in VARIANTS
     ],
 )
 
